@@ -210,9 +210,11 @@ def run_case(c):
             out = Out(list(out.labels) + ["tmpdir:other-fs-unavailable"], out.nontrivial)
         return out
     saved_env, saved_td = os.environ.get("TMPDIR"), tempfile.tempdir
+    # (a directory of this case's own on that file system: it is shared with every other
+    #  process of the machine)
+    other = tempfile.mkdtemp(prefix="verif-c15-", dir=other)
     os.environ["TMPDIR"] = other
     tempfile.tempdir = None
-    before = set(os.listdir(other))
     try:
         out = _run_case(c)
         return Out(list(out.labels) + ["tmpdir:other-fs"], out.nontrivial)
@@ -222,11 +224,7 @@ def run_case(c):
         else:
             os.environ["TMPDIR"] = saved_env
         tempfile.tempdir = saved_td
-        for f in set(os.listdir(other)) - before:       # whatever the code left behind
-            try:
-                os.unlink(os.path.join(other, f))
-            except OSError:
-                pass
+        shutil.rmtree(other, ignore_errors=True)       # with whatever the code left behind
 
 
 def _run_case(c):
@@ -442,4 +440,4 @@ def check_values(c, g, text, plat):
 
 def stages(tier):
     return [HypStage("flows", lambda t: cases(t), run_case, {"quick": 150, "thorough": 3000},
-                     budget_s={"quick": 100, "thorough": 1200})]
+                     budget_s={"quick": 300, "thorough": 1200})]
